@@ -385,7 +385,12 @@ fn encode_cmd(l: &mut Local, rng: &mut Rng, dir: &str, idx: u64) {
     let partial = rng.range(0, k - 1);
     let input: Vec<u8> = (0..words * k + partial).map(|_| rng.coin() as u8).collect();
     write_file(&ipath, &input);
+    // the output path either does not exist or already holds a (longer) file from an earlier run
     let _ = std::fs::remove_file(&opath);
+    let preexisting = rng.chance(0.5);
+    if preexisting {
+        write_file(&opath, &vec![0x55u8; words * n + rng.range(1, 300)]);
+    }
     let enc = Encoder::from_h(&h).expect("encoder");
     let mut want: Vec<u8> = Vec::new();
     for w in 0..words {
@@ -409,6 +414,7 @@ fn encode_cmd(l: &mut Local, rng: &mut Rng, dir: &str, idx: u64) {
                 .set("puncturing", ps.clone())
                 .set("complete_words", words)
                 .set("trailing_partial_bytes", partial)
+                .set("output_file_existed_before_with_more_bytes", preexisting)
                 .set("exit", code)
                 .set("stderr", err.chars().take(200).collect::<String>())
                 .set("output_bytes", got.len())
@@ -438,7 +444,7 @@ fn encode_cmd(l: &mut Local, rng: &mut Rng, dir: &str, idx: u64) {
     }
     // invalid patterns
     if idx % 4 == 0 {
-        for bad in ["1,2", "1,,0", "a", "1,0,"] {
+        for bad in ["1,2", "1,,0", "a", "1,0,", "", ",", " "] {
             expect_failure(l, "an invalid puncturing pattern given to encode", &["encode", &apath, &ipath, &opath, "--puncturing", bad]);
         }
         if words > 0 {
@@ -566,7 +572,10 @@ fn ber_cmd(l: &mut Local, rng: &mut Rng, dir: &str, idx: u64) {
         }
     }
     if idx % 3 == 0 {
-        expect_failure(l, "an invalid puncturing pattern given to ber", &["ber", "--min-ebn0=0", "--max-ebn0=0", "--step-ebn0=1", "--puncturing", "1,2", &apath]);
+        for bad in ["1,2", "", "1,1,"] {
+            let parg = format!("--puncturing={}", bad);
+            expect_failure(l, "an invalid puncturing pattern given to ber", &["ber", "--min-ebn0=0", "--max-ebn0=0", "--step-ebn0=1", "--frame-errors", "1", &parg, &apath]);
+        }
         // interleaver columns that do not divide the frame: must be an error, not a hang or a panic of the tool
         let c = (2..=7).find(|c| n % c != 0).unwrap_or(5).to_string();
         let iargs = ["ber", "--min-ebn0=0", "--max-ebn0=0", "--step-ebn0=1", "--frame-errors", "2", "--interleaving", &c, &apath];
